@@ -5,7 +5,24 @@ import sysloss
 
 from .. import gen, sysdesc, wire
 from ..sysdesc import System
-from .c13 import same, first_diff, exc_name
+from .c13 import same, exc_name
+from .c13 import first_diff as _first_diff
+
+
+def first_diff(a, b, path=""):
+    """document comparison: the name-keyed registries of the system block (phase_conf, groups, rails) are compared as
+    unordered maps — their key order records creation order only and nothing reads it; everything else is ordered"""
+    def canon(d):
+        if isinstance(d, dict) and isinstance(d.get("system"), dict):
+            d = dict(d)
+            sysb = dict(d["system"])
+            for k in ("phase_conf", "groups", "rails"):
+                if isinstance(sysb.get(k), dict):
+                    sysb[k] = {kk: sysb[k][kk] for kk in sorted(sysb[k])}
+            d["system"] = sysb
+        return d
+    return _first_diff(canon(a), canon(b), path)
+
 
 CLAIM = True
 LEVEL_TEXT = ("Theorems (Lean 4, any linearly ordered field) about the executable model of System.save / System.from_file "
@@ -123,11 +140,18 @@ def resolved(desc):
 
 
 def insertion_order(desc):
-    """the order in which sysdesc.build inserts the components (a `detour` build plan adds one leaf last)"""
-    det = (desc.get("_build") or {}).get("detour")
-    if not det:
-        return list(desc["comps"])
-    return [c for c in desc["comps"] if c["name"] != det["x"]] + [c for c in desc["comps"] if c["name"] == det["x"]]
+    """the order in which sysdesc.build creates the parent->child links, which is what decides the sibling order of the
+    document (a `detour` build plan adds one leaf last; a `bridge` plan re-links one child to its parent at the very end)"""
+    plan = desc.get("_build") or {}
+    det, br = plan.get("detour"), plan.get("bridge")
+    late = []
+    if det:
+        late.append(det["x"])
+    if br and br["child"] not in late:
+        late.append(br["child"])
+    elif br:
+        late = [n for n in late if n != br["child"]] + [br["child"]]
+    return [c for c in desc["comps"] if c["name"] not in late] + [c for n in late for c in desc["comps"] if c["name"] == n]
 
 
 def desc_wire(desc):
